@@ -332,12 +332,15 @@ func (k *c18) r3nbtns() {
 	}
 	path := []*types.Var{hdr, tid}
 	n := 0
+	// pass 1: per function, the packets Unmarshal-ed from its input and its Marshal calls
+	localReq := map[*ssa.Function][]ssa.Value{}
+	marshalsOf := map[*ssa.Function][]*ssa.Call{}
+	var order []*ssa.Function
 	for _, fn := range k.fns {
 		if relPkg(k.p, fn) != c18Nbtns {
 			continue
 		}
-		var reqRoots []ssa.Value
-		var marshals []*ssa.Call
+		order = append(order, fn)
 		for _, b := range fn.Blocks {
 			for _, in := range b.Instrs {
 				call, ok := in.(*ssa.Call)
@@ -358,16 +361,63 @@ func (k *c18) r3nbtns() {
 						}
 					}
 					if l, ok := k.addrLoc(args[0], 0); ok && fromParam && len(l.path) == 0 {
-						reqRoots = append(reqRoots, l.root)
+						localReq[fn] = append(localReq[fn], l.root)
 					}
 				case mar:
-					marshals = append(marshals, call)
+					marshalsOf[fn] = append(marshalsOf[fn], call)
 				}
 			}
+		}
+	}
+	// pass 2: a function that builds and encodes the response for a request decoded by its
+	// caller (decode in handlePacket, respond(&packet, …) does the rest): its packet parameter
+	// is the request when every call site passes a packet the caller Unmarshal-ed from its input
+	pktT := types.NewPointer(unm.Type().(*types.Signature).Recv().Type())
+	if p, ok := unm.Type().(*types.Signature).Recv().Type().(*types.Pointer); ok {
+		pktT = p
+	}
+	paramReq := func(fn *ssa.Function) []ssa.Value {
+		var out []ssa.Value
+		for i, prm := range fn.Params {
+			if !types.Identical(prm.Type(), pktT) {
+				continue
+			}
+			sites, good := 0, 0
+			for _, f := range order {
+				for _, b := range f.Blocks {
+					for _, in := range b.Instrs {
+						ci, ok := in.(ssa.CallInstruction)
+						if !ok || ci.Common().StaticCallee() != fn || i >= len(ci.Common().Args) {
+							continue
+						}
+						sites++
+						if l, ok := k.addrLoc(ci.Common().Args[i], 0); ok && len(l.path) == 0 {
+							for _, rr := range localReq[f] {
+								if rr == l.root {
+									good++
+								}
+							}
+						}
+					}
+				}
+			}
+			if sites > 0 && sites == good {
+				out = append(out, prm)
+			}
+		}
+		return out
+	}
+	responders := map[string]bool{}
+	for _, fn := range order {
+		reqRoots := localReq[fn]
+		marshals := marshalsOf[fn]
+		if len(reqRoots) == 0 && len(marshals) > 0 && fn.Parent() == nil {
+			reqRoots = paramReq(fn)
 		}
 		if len(reqRoots) == 0 || len(marshals) == 0 {
 			continue
 		}
+		responders[k.r2DeclName(fn)] = true
 		for _, m := range marshals {
 			m := m
 			args := effects.AllArgs(&m.Call)
@@ -506,7 +556,22 @@ func (k *c18) r3nbtns() {
 			})
 		}
 	}
-	k.r.Floor(rule, 3)
+	// The entities that must answer with the request's id are the server types; several of
+	// them may share one responder function. Each server type must reach a judged responder.
+	servers := k.r2ServerTypes(pk)
+	for _, t := range servers {
+		construct := "nbtns: server type " + t.Obj().Name() + " answers through a responder judged above"
+		if k.r2ReachesAny(k.r2Reach(k.methodsOf(t)), responders) {
+			k.r.OK(rule, construct, k.p.Rel(t.Obj().Pos()), "reaches a function that decodes the request from its input and encodes a response whose TransactionID is judged")
+		} else {
+			k.r.Fail(rule, construct, k.p.Rel(t.Obj().Pos()), "no method of "+t.Obj().Name()+" reaches a function that Unmarshals a request from its input and Marshals a response: the id echo of this server is not decided (or the server no longer answers)")
+		}
+	}
+	if len(servers) < 3 {
+		k.r.Fail(rule, "nbtns: server types with Start/Stop", "", fmt.Sprintf("%d server types found, 3 confirmed by reading (Server, UDPServer, TCPServer)", len(servers)))
+	}
+	// 3 server types + at least one judged responder
+	k.r.Floor(rule, 4)
 	k.r.Extra["R3_nbns_responders"] = n
 }
 
@@ -602,7 +667,7 @@ func (k *c18) r3llmnr() {
 		if relPkg(k.p, fn) != c18Llmnr {
 			continue
 		}
-		fills := k.fills(fn)
+		fills := k.r3fills(fn)
 		for _, b := range fn.Blocks {
 			for _, in := range b.Instrs {
 				call, ok := in.(*ssa.Call)
@@ -620,7 +685,13 @@ func (k *c18) r3llmnr() {
 				args := effects.AllArgs(&call.Call)
 				switch obj.Name() {
 				case "Load":
-					if len(fills) == 0 || len(args) < 2 {
+					if len(args) < 2 {
+						continue
+					}
+					if len(fills) == 0 {
+						// the lookup may have been moved into a helper of the receive loop
+						// (deliver(msg), lookup(id)): judge it at the helper's call sites
+						nLookup += k.r3lookupInHelper(fn, call, args[1], path, 0)
 						continue
 					}
 					nLookup++
@@ -642,48 +713,215 @@ func (k *c18) r3llmnr() {
 	k.r.Extra["R3_llmnr_registrations"] = nStore
 }
 
+// r3fills: the buffers of fn that hold freshly received bytes — filled by a read in fn itself,
+// or (one level of extraction: readLoop → handle(buffer[:n])) a []byte parameter that every
+// in-package caller with a receive loop feeds from the buffer it has just filled.
+func (k *c18) r3fills(fn *ssa.Function) []c18Fill {
+	if fl := k.fills(fn); len(fl) > 0 || fn.Parent() != nil {
+		return fl
+	}
+	var out []c18Fill
+	for i, prm := range fn.Params {
+		if sl, ok := prm.Type().Underlying().(*types.Slice); !ok || !types.Identical(sl.Elem(), types.Typ[types.Byte]) {
+			continue
+		}
+		sites, fed := 0, 0
+		var at ssa.CallInstruction
+		for _, g := range k.fns {
+			if relPkg(k.p, g) != relPkg(k.p, fn) {
+				continue
+			}
+			var gf []c18Fill
+			for _, b := range g.Blocks {
+				for _, in := range b.Instrs {
+					ci, ok := in.(ssa.CallInstruction)
+					if !ok || ci.Common().StaticCallee() != fn || i >= len(ci.Common().Args) {
+						continue
+					}
+					if _, isCall := in.(*ssa.Call); !isCall {
+						continue // go/defer: the bytes are used after the next read may have happened (R1's subject)
+					}
+					sites++
+					if gf == nil {
+						gf = k.fills(g)
+					}
+					ok2 := false
+					for _, r1 := range effects.Roots(ci.Common().Args[i]) {
+						for _, f := range gf {
+							for _, r2 := range effects.Roots(f.buf) {
+								if r1 == r2 {
+									ok2 = true
+								}
+							}
+						}
+					}
+					if ok2 {
+						fed++
+						at = ci
+					}
+				}
+			}
+		}
+		if sites > 0 && sites == fed {
+			out = append(out, c18Fill{call: at, buf: prm, name: "caller's read"})
+		}
+	}
+	return out
+}
+
+// r3keyCheck: the lookup key evaluated in fn derives, on every def-use path, from
+// the Header.ID of the message decoded from the bytes fn's loop has just read.
+// Returns the message root and the reasons why not.
+func (k *c18) r3keyCheck(fn *ssa.Function, key ssa.Value, fills []c18Fill, path []*types.Var) (msgRoot ssa.Value, bad []string) {
+	fl := &c18Flow{k: k, fn: fn, visited: map[string]bool{}}
+	for _, s := range fl.valueSources(key) {
+		if s.kind != "load" || !c18PathEq(s.loc.path, path) {
+			bad = append(bad, s.String())
+			continue
+		}
+		if why := k.r3decoded(s.loc.root, fills); why != "" {
+			bad = append(bad, why)
+			continue
+		}
+		msgRoot = s.loc.root
+	}
+	return msgRoot, bad
+}
+
+// r3decoded: root is the result of a module decoder applied to the buffer filled by the read of this loop.
+func (k *c18) r3decoded(root ssa.Value, fills []c18Fill) string {
+	ex, _ := root.(*ssa.Extract)
+	var dec *ssa.Call
+	if ex != nil {
+		dec, _ = ex.Tuple.(*ssa.Call)
+	} else {
+		dec, _ = root.(*ssa.Call)
+	}
+	if dec == nil || len(k.pg.Callees(&dec.Call)) == 0 {
+		return "the message whose ID is used is not the result of a module decoder (" + root.String() + ")"
+	}
+	for _, a := range effects.AllArgs(&dec.Call) {
+		for _, r1 := range effects.Roots(a) {
+			for _, f := range fills {
+				for _, r2 := range effects.Roots(f.buf) {
+					if r1 == r2 {
+						return ""
+					}
+				}
+			}
+		}
+	}
+	return "the decoded message does not come from the buffer filled by the read in this loop"
+}
+
+// r3sends judges the sends on channels for which isChan holds, in fn and in the
+// module helpers such a channel is passed to (bounded depth): each must be a
+// non-blocking select case sending the looked-up message.
+func (k *c18) r3sends(fn *ssa.Function, isChan, isMsg func(ssa.Value) bool, depth int) (good int, bad []string) {
+	for _, b := range fn.Blocks {
+		for _, in := range b.Instrs {
+			switch x := in.(type) {
+			case *ssa.Send:
+				if isChan(x.Chan) {
+					bad = append(bad, "blocking channel send at "+k.pos(in)+": a query that is no longer receiving stalls the read loop for every other query")
+				}
+			case *ssa.Select:
+				for _, st := range x.States {
+					if st.Send == nil || !isChan(st.Chan) {
+						continue
+					}
+					if x.Blocking {
+						bad = append(bad, "select without default at "+k.pos(in)+": the send can block the read loop")
+						continue
+					}
+					if isMsg != nil && !isMsg(c18Strip(st.Send)) {
+						bad = append(bad, "the value sent at "+k.pos(in)+" is not the message whose ID was looked up")
+						continue
+					}
+					good++
+				}
+			case ssa.CallInstruction:
+				if depth >= 2 {
+					continue
+				}
+				g := x.Common().StaticCallee()
+				if g == nil || g.Blocks == nil || !k.p.InModule(g) || g.Parent() != nil {
+					continue
+				}
+				args := x.Common().Args
+				var chanPrm, msgPrm []ssa.Value
+				for i, a := range args {
+					if i >= len(g.Params) {
+						break
+					}
+					if _, isCh := a.Type().Underlying().(*types.Chan); isCh && isChan(a) {
+						chanPrm = append(chanPrm, g.Params[i])
+					} else if _, isIf := a.Type().Underlying().(*types.Interface); isIf && isChan(a) {
+						chanPrm = append(chanPrm, g.Params[i]) // the untyped value loaded from the sync.Map
+					}
+					if isMsg != nil && isMsg(c18Strip(a)) {
+						msgPrm = append(msgPrm, g.Params[i])
+					}
+				}
+				if len(chanPrm) == 0 {
+					continue
+				}
+				subChan := func(v ssa.Value) bool {
+					for _, r := range effects.Roots(v) {
+						for _, p := range chanPrm {
+							if r == p {
+								return true
+							}
+						}
+					}
+					return false
+				}
+				subMsg := func(v ssa.Value) bool {
+					for _, p := range msgPrm {
+						if v == p {
+							return true
+						}
+					}
+					return false
+				}
+				g2, b2 := k.r3sends(g, subChan, subMsg, depth+1)
+				good += g2
+				bad = append(bad, b2...)
+			}
+		}
+	}
+	return good, bad
+}
+
+func (k *c18) r3delivery(construct2 string, at ssa.Instruction, fn *ssa.Function, isChan, isMsg func(ssa.Value) bool) {
+	k.c.guard("R3-llmnr-nonblocking-delivery", construct2, k.pos(at), func() {
+		good, bad := k.r3sends(fn, isChan, isMsg, 0)
+		if len(bad) > 0 || good == 0 {
+			if len(bad) == 0 {
+				bad = append(bad, "no send on the looked-up channel found")
+			}
+			k.r.Fail("R3-llmnr-nonblocking-delivery", construct2, k.pos(at), strings.Join(bad, "; "))
+			return
+		}
+		k.r.OK("R3-llmnr-nonblocking-delivery", construct2, k.pos(at), "select with default sends the message whose ID selected the channel")
+	})
+}
+
+func c18RootsInclude(v ssa.Value, want ssa.Value) bool {
+	for _, r := range effects.Roots(v) {
+		if r == want {
+			return true
+		}
+	}
+	return false
+}
+
 func (k *c18) r3lookup(fn *ssa.Function, load *ssa.Call, key ssa.Value, fills []c18Fill, path []*types.Var) {
 	construct := k.fname(fn) + ": pending-query lookup key ← ID of the message decoded from the received bytes"
 	var msgRoot ssa.Value
 	k.c.guard("R3-llmnr-lookup-key", construct, k.pos(load), func() {
-		fl := &c18Flow{k: k, fn: fn, visited: map[string]bool{}}
-		srcs := fl.valueSources(key)
 		var bad []string
-		for _, s := range srcs {
-			if s.kind != "load" || !c18PathEq(s.loc.path, path) {
-				bad = append(bad, s.String())
-				continue
-			}
-			// the message must be the result of decoding the buffer just filled
-			ex, _ := s.loc.root.(*ssa.Extract)
-			var dec *ssa.Call
-			if ex != nil {
-				dec, _ = ex.Tuple.(*ssa.Call)
-			} else {
-				dec, _ = s.loc.root.(*ssa.Call)
-			}
-			if dec == nil || len(k.pg.Callees(&dec.Call)) == 0 {
-				bad = append(bad, "the message whose ID is used is not the result of a module decoder ("+s.loc.root.String()+")")
-				continue
-			}
-			fromBuf := false
-			for _, a := range effects.AllArgs(&dec.Call) {
-				for _, r1 := range effects.Roots(a) {
-					for _, f := range fills {
-						for _, r2 := range effects.Roots(f.buf) {
-							if r1 == r2 {
-								fromBuf = true
-							}
-						}
-					}
-				}
-			}
-			if !fromBuf {
-				bad = append(bad, "the decoded message does not come from the buffer filled by the read in this loop")
-				continue
-			}
-			msgRoot = s.loc.root
-		}
+		msgRoot, bad = k.r3keyCheck(fn, key, fills, path)
 		if len(bad) > 0 || msgRoot == nil {
 			k.r.Fail("R3-llmnr-lookup-key", construct, k.pos(load), "the key passed to Queries.Load is not the received message's Header.ID: "+strings.Join(uniqStrings(bad), "; ")+" — responses would be handed to the wrong query or dropped")
 			return
@@ -693,51 +931,143 @@ func (k *c18) r3lookup(fn *ssa.Function, load *ssa.Call, key ssa.Value, fills []
 
 	// delivery
 	construct2 := k.fname(fn) + ": delivery of the response to the waiting query is a non-blocking send of the looked-up message"
-	k.c.guard("R3-llmnr-nonblocking-delivery", construct2, k.pos(load), func() {
-		fromLoad := func(ch ssa.Value) bool {
-			for _, r := range effects.Roots(ch) {
-				if r == ssa.Value(load) {
-					return true
+	var isMsg func(ssa.Value) bool
+	if msgRoot != nil {
+		isMsg = func(v ssa.Value) bool { return v == msgRoot }
+	}
+	k.r3delivery(construct2, load, fn, func(ch ssa.Value) bool { return c18RootsInclude(ch, load) }, isMsg)
+}
+
+// r3lookupInHelper handles a Queries.Load that sits in a helper of the receive
+// loop. Two shapes are decided: the helper takes the decoded message and looks
+// up msg.Header.ID (deliver(msg)), or it takes the ID (lookup(id)) and may
+// return the channel. The key is judged at every call site that lies in a
+// function with a receive loop (directly, or one more helper level up); the
+// delivery is judged where the send is: in the helper, or in the caller on the
+// channel the helper returns. Returns the number of call sites judged.
+func (k *c18) r3lookupInHelper(h *ssa.Function, load *ssa.Call, key ssa.Value, path []*types.Var, depth int) int {
+	if h.Parent() != nil || depth > 1 {
+		return 0
+	}
+	// which parameter of h feeds the key, and how
+	msgPrm, idPrm := -1, -1
+	var keyBad []string // the key is read from the message parameter, but not from Header.ID
+	fl := &c18Flow{k: k, fn: h, visited: map[string]bool{}}
+	if prm, ok := c18Strip(key).(*ssa.Parameter); ok {
+		for i, q := range h.Params {
+			if q == prm {
+				idPrm = i
+			}
+		}
+	} else {
+		for _, s := range fl.valueSources(key) {
+			prm, isPrm := s.loc.root.(*ssa.Parameter)
+			if s.kind != "load" || !isPrm {
+				return 0
+			}
+			if !c18PathEq(s.loc.path, path) {
+				keyBad = append(keyBad, s.String())
+			}
+			for i, q := range h.Params {
+				if q == prm {
+					if msgPrm >= 0 && msgPrm != i {
+						return 0
+					}
+					msgPrm = i
 				}
 			}
-			return false
 		}
-		var bad []string
-		good := 0
-		for _, b := range fn.Blocks {
+	}
+	if msgPrm < 0 && idPrm < 0 {
+		return 0
+	}
+	// does h return the looked-up channel?
+	returnsChan := false
+	for _, b := range h.Blocks {
+		if ret, ok := b.Instrs[len(b.Instrs)-1].(*ssa.Return); ok {
+			for _, rv := range ret.Results {
+				if c18RootsInclude(rv, load) {
+					returnsChan = true
+				}
+			}
+		}
+	}
+	n := 0
+	for _, f := range k.fns {
+		if relPkg(k.p, f) != c18Llmnr {
+			continue
+		}
+		fills := k.r3fills(f)
+		for _, b := range f.Blocks {
 			for _, in := range b.Instrs {
-				switch x := in.(type) {
-				case *ssa.Send:
-					if fromLoad(x.Chan) {
-						bad = append(bad, "blocking channel send at "+k.pos(in)+": a query that is no longer receiving stalls the read loop for every other query")
-					}
-				case *ssa.Select:
-					for _, st := range x.States {
-						if st.Send == nil || !fromLoad(st.Chan) {
-							continue
-						}
-						if x.Blocking {
-							bad = append(bad, "select without default at "+k.pos(in)+": the send can block the read loop")
-							continue
-						}
-						if msgRoot != nil && c18Strip(st.Send) != msgRoot {
-							bad = append(bad, "the value sent at "+k.pos(in)+" is not the message whose ID was looked up")
-							continue
-						}
-						good++
-					}
+				call, ok := in.(*ssa.Call)
+				if !ok || call.Call.StaticCallee() != h {
+					continue
 				}
+				args := call.Call.Args
+				if len(fills) == 0 {
+					continue // not a receive loop: this use of the helper is not the response path
+				}
+				n++
+				construct := k.fname(f) + ": pending-query lookup key (in " + h.Name() + ") ← ID of the message decoded from the received bytes"
+				var msgRoot ssa.Value
+				k.c.guard("R3-llmnr-lookup-key", construct, k.pos(call), func() {
+					bad := append([]string{}, keyBad...)
+					switch {
+					case msgPrm >= 0 && msgPrm < len(args):
+						if l, ok := k.addrLoc(args[msgPrm], 0); ok && len(l.path) == 0 {
+							if why := k.r3decoded(l.root, fills); why != "" {
+								bad = append(bad, why)
+							} else {
+								msgRoot = l.root
+							}
+						} else {
+							bad = append(bad, "the message handed to "+h.Name()+" could not be resolved")
+						}
+					case idPrm >= 0 && idPrm < len(args):
+						msgRoot, bad = k.r3keyCheck(f, args[idPrm], fills, path)
+					}
+					if len(bad) > 0 || msgRoot == nil {
+						k.r.Fail("R3-llmnr-lookup-key", construct, k.pos(call), "the key "+h.Name()+" passes to Queries.Load is not the received message's Header.ID: "+strings.Join(uniqStrings(bad), "; ")+" — responses would be handed to the wrong query or dropped")
+						return
+					}
+					k.r.OK("R3-llmnr-lookup-key", construct, k.pos(call), "key = Header.ID of the message returned by the decoder applied to the bytes just read, looked up in "+h.Name())
+				})
+				construct2 := k.fname(f) + ": delivery of the response to the waiting query (through " + h.Name() + ") is a non-blocking send of the looked-up message"
+				good, bad := 0, []string(nil)
+				k.c.guard("R3-llmnr-nonblocking-delivery", construct2, k.pos(call), func() {
+					// sends inside the helper, on the channel it looked up
+					var hMsg func(ssa.Value) bool
+					if msgPrm >= 0 {
+						hMsg = func(v ssa.Value) bool { return v == ssa.Value(h.Params[msgPrm]) }
+					} else {
+						// lookup(id) does not have the message: a send inside it cannot be the looked-up message
+						hMsg = func(ssa.Value) bool { return false }
+					}
+					g1, b1 := k.r3sends(h, func(ch ssa.Value) bool { return c18RootsInclude(ch, load) }, hMsg, 0)
+					good, bad = good+g1, append(bad, b1...)
+					// sends in the caller, on the channel the helper returned
+					if returnsChan {
+						var fMsg func(ssa.Value) bool
+						if msgRoot != nil {
+							fMsg = func(v ssa.Value) bool { return v == msgRoot }
+						}
+						g2, b2 := k.r3sends(f, func(ch ssa.Value) bool { return c18RootsInclude(ch, call) }, fMsg, 0)
+						good, bad = good+g2, append(bad, b2...)
+					}
+					if len(bad) > 0 || good == 0 {
+						if len(bad) == 0 {
+							bad = append(bad, "no send on the looked-up channel found")
+						}
+						k.r.Fail("R3-llmnr-nonblocking-delivery", construct2, k.pos(call), strings.Join(bad, "; "))
+						return
+					}
+					k.r.OK("R3-llmnr-nonblocking-delivery", construct2, k.pos(call), "select with default sends the message whose ID selected the channel")
+				})
 			}
 		}
-		if len(bad) > 0 || good == 0 {
-			if len(bad) == 0 {
-				bad = append(bad, "no send on the looked-up channel found")
-			}
-			k.r.Fail("R3-llmnr-nonblocking-delivery", construct2, k.pos(load), strings.Join(bad, "; "))
-			return
-		}
-		k.r.OK("R3-llmnr-nonblocking-delivery", construct2, k.pos(load), "select with default sends the message whose ID selected the channel")
-	})
+	}
+	return n
 }
 
 func (k *c18) r3register(fn *ssa.Function, store *ssa.Call, key, val ssa.Value, path []*types.Var, lp *types.Package) {
